@@ -374,3 +374,67 @@ func normalizeForall(op string, bound []string, body string) string {
 	}
 	return "(forall (" + binders(newVars) + ") (! " + nb + " " + strings.Join(patStrs, " ") + "))"
 }
+
+// splitGoal splits a goal of the shape  Q* (A => (and c1 .. cn))  into n goals Q* (A => ci)
+// (Q* = forall binders / pattern annotations). Proving each part proves the whole.
+func splitGoal(goal string) []string {
+	t := parseSexp(goal)
+	if t == nil {
+		return []string{goal}
+	}
+	var conj func(e *sexp) []*sexp
+	conj = func(e *sexp) []*sexp {
+		if !e.isAtom() && e.head() == "and" {
+			var r []*sexp
+			for _, k := range e.kids[1:] {
+				r = append(r, conj(k)...)
+			}
+			return r
+		}
+		return []*sexp{e}
+	}
+	var variants func(e *sexp) []*sexp
+	variants = func(e *sexp) []*sexp {
+		if e.isAtom() {
+			return []*sexp{e}
+		}
+		switch e.head() {
+		case "forall":
+			if len(e.kids) == 3 {
+				var out []*sexp
+				for _, v := range variants(e.kids[2]) {
+					out = append(out, &sexp{kids: []*sexp{e.kids[0], e.kids[1], v}})
+				}
+				return out
+			}
+		case "!":
+			var out []*sexp
+			for _, v := range variants(e.kids[1]) {
+				n := &sexp{kids: []*sexp{e.kids[0], v}}
+				n.kids = append(n.kids, e.kids[2:]...)
+				out = append(out, n)
+			}
+			return out
+		case "=>":
+			if len(e.kids) == 3 {
+				var out []*sexp
+				for _, v := range variants(e.kids[2]) {
+					out = append(out, &sexp{kids: []*sexp{e.kids[0], e.kids[1], v}})
+				}
+				return out
+			}
+		case "and":
+			return conj(e)
+		}
+		return []*sexp{e}
+	}
+	vs := variants(t)
+	if len(vs) <= 1 || len(vs) > 12 {
+		return []string{goal}
+	}
+	var out []string
+	for _, v := range vs {
+		out = append(out, v.String())
+	}
+	return out
+}
